@@ -1,5 +1,5 @@
 (* Properties_C09.v — C09: symbol tables round-trip; hash functions equal their ABI definitions. *)
-From ElfioV Require Import Bytes Mem Stream SectionData SectionData_proofs Strings Elfio Table Accessors Symbols_proofs.
+From ElfioV Require Import Bytes Mem Stream SectionData SectionData_proofs Strings Elfio Table Accessors Symbols_proofs ByName_proofs.
 Local Open Scope N_scope.
 
 (* field-level codec: ABI field order per class, values truncated to the field widths *)
@@ -42,6 +42,79 @@ Theorem C09_lookup_by_value_is_first_match :
     scan_values fuel (s_data s) c e (sh_entsize s) value i (lenN ys) = Ok (find_val c value (skipnN ys i) i).
 Proof. exact scan_values_first. Qed.
 Print Assumptions C09_lookup_by_value_is_first_match.
+
+(* lookup by name.  On an object whose symbol table, linked string table and accompanying hash section no longer
+   change under data requests ([quiet]: true of a section after its first get_data(), C09_quiet_after_first_request)
+   get_symbol( name, ... ) for a non-empty name
+     - leaves the object as it is,
+     - when it succeeds, returns the attributes of a symbol of the table whose name is the queried one,
+     - when it fails, no symbol below get_symbols_num() has that name,
+   WHATEVER the SysV or GNU hash section contains (well-formed, stale or garbage): a hash hit is accepted only after
+   the name has been compared and a miss falls back to the linear scan.  [is_symbol el symsec v]: some index
+   yields exactly the attributes v through get_symbol( index, ... ). *)
+Theorem C09_lookup_by_name_agrees_with_scan :
+  forall (junk : N -> N) el symsec s name el1 r,
+    get_sec el symsec = Some s -> quiet_symtab el symsec ->
+    (forall hi hs h, find_hash (el_secs el) 0 (s_index s) = Some (hi, hs) -> get_sec el hi = Some h -> quiet h) ->
+    name <> [] ->
+    get_symbol_by_name junk el symsec name = Ok (el1, r) ->
+    el1 = el /\
+    match r with
+    | Some v => is_symbol junk el symsec v /\ sv_name v = name
+    | None => no_match junk el symsec name 0 (get_symbols_num el s)
+    end.
+Proof. exact get_symbol_by_name_spec. Qed.
+Print Assumptions C09_lookup_by_name_agrees_with_scan.
+
+(* with unique names: the lookup returns THE symbol of that name whenever there is one *)
+Theorem C09_lookup_by_name_unique_names :
+  forall (junk : N -> N) el symsec s name el1 r,
+    get_sec el symsec = Some s -> quiet_symtab el symsec ->
+    (forall hi hs h, find_hash (el_secs el) 0 (s_index s) = Some (hi, hs) -> get_sec el hi = Some h -> quiet h) ->
+    name <> [] ->
+    (forall v w, is_symbol junk el symsec v -> is_symbol junk el symsec w -> sv_name v = sv_name w -> v = w) ->
+    get_symbol_by_name junk el symsec name = Ok (el1, r) ->
+    forall k w, k < get_symbols_num el s -> get_symbol junk el symsec k = Ok (el, Some w) -> sv_name w = name -> r = Some w.
+Proof. exact get_symbol_by_name_unique. Qed.
+Print Assumptions C09_lookup_by_name_unique_names.
+
+(* the linear scan itself: the first index in [i, n) whose symbol has the name, nothing when there is none *)
+Theorem C09_scan_returns_first_match :
+  forall (junk : N -> N) fuel name el symsec i n el1 r,
+    quiet_symtab el symsec ->
+    scan_names junk fuel el symsec name i n = Ok (el1, r) ->
+    el1 = el /\
+    match r with
+    | Some v => exists j, i <= j < n /\ get_symbol junk el symsec j = Ok (el, Some v) /\ sv_name v = name /\
+                          no_match junk el symsec name i j
+    | None => no_match junk el symsec name i n
+    end.
+Proof. exact scan_names_spec. Qed.
+Print Assumptions C09_scan_returns_first_match.
+
+Theorem C09_quiet_after_first_request :
+  forall (junk : N -> N) el i el1 p s1,
+    el_sec_get_data junk el i = Ok (el1, p) -> get_sec el1 i = Some s1 -> quiet s1.
+Proof. exact quiet_after_get_data. Qed.
+Print Assumptions C09_quiet_after_first_request.
+
+(* the hypotheses are satisfiable: an object built through the API (string table, symbol table with two named
+   symbols), after one data request on each section, is quiet, and the lookup finds the second symbol *)
+From ElfioV Require Import Loader Layout Writer Script.
+Definition c09_el : elfio :=
+  w_el (fst (fst (run_list init_world
+    [OpCtor false; OpCreate C64 LSB; OpAddSec [46; 115]; OpSecSet 2 SType 3; OpAddSec [46; 116]; OpSecSet 3 SType 2;
+     OpSecSet 3 SEntsize 24; OpSecSet 3 SLink 2;
+     OpSymAddS 3 2 [102; 111; 111] 10 4 18 0 1; OpSymAddS 3 2 [98; 97; 114] 20 4 18 0 1; OpGetData 2; OpGetData 3] []))).
+Example C09_lookup_example :
+  quiet_symtab c09_el 3 /\
+  get_symbol_by_name junk0 c09_el 3 [98; 97; 114] = Ok (c09_el, Some (mkSymview [98; 97; 114] 20 4 1 2 1 0 true)).
+Proof.
+  split.
+  - eexists. split; [vm_compute; reflexivity|]. split; [vm_compute; reflexivity|].
+    intros st H. vm_compute in H. injection H as <-. vm_compute. reflexivity.
+  - vm_compute. reflexivity.
+Qed.
 
 (* the library's hash functions equal the ABI definitions *)
 Theorem C09_elf_hash_is_abi : forall name, Bytes.is_bytes name -> elf_hash name = elf_hash_abi name.
